@@ -140,7 +140,11 @@ def gen_offset(rng, notation_time, allow_nominal=True):
     neg = rng.random() < 0.35
     if allow_nominal and rng.random() < 0.2:
         text = rng.choice(["P1M", "P1Y", "P1Y1M", "P11M", "P1M1D", "P4Y",
-                           "P1Y2M3DT4H5M6S", "P12M"])
+                           "P1Y2M3DT4H5M6S", "P12M", "P2M", "P13M", "P3Y1D",
+                           "P1M15DT12H"])
+        if notation_time in ("h_dec", "hm_dec") and "T" in text:
+            text = "P1Y2M3D"    # decimal hours/minutes: whole days only,
+            #                     so that binary floating point stays exact
         return {"text": ("-" if neg else "") + text, "us": None}
     if rng.random() < 0.08 and notation_time not in ("h_dec", "hm_dec"):
         # the alternative, date-time-like duration notation
@@ -856,9 +860,22 @@ class Sim(object):
         not decide (nominal offsets / print formats it does not render)."""
         utc = spec.get("utc")
         offsets = spec["offsets"]
+        nominal = None
         if any(o["us"] is None for o in offsets):
-            return None
-        total = sum(o["us"] for o in offsets)
+            # month / year offsets: decided by the calendar rules of
+            # cli_model.shift_instant -- except for the 24:00 spelling, where
+            # "normalise, then step months" and "step months, then normalise"
+            # differ and the property does not choose
+            nominal = [cm.parse_designator_duration(o["text"]) if (
+                o["us"] is None) else {"neg": False, "Y": 0, "M": 0,
+                                       "us": o["us"]} for o in offsets]
+            if None in nominal or spec["src"] in (
+                    "now", "noarg", "ref_none") or spec.get("ctime") or (
+                    spec.get("written") or {}).get("H") == 24:
+                return None
+            total = 0
+        else:
+            total = sum(o["us"] for o in offsets)
         pf = spec.get("pf")
         if spec["src"] in ("now", "noarg", "ref_none"):
             outs = set()
@@ -895,6 +912,11 @@ class Sim(object):
         for off_in in in_offs:
             t_us = cm.written_instant_us(w, mode, off_in)
             out_off = 0 if utc else off_in
+            if nominal is not None:
+                # --utc converts first; the shift happens in the zone and
+                # representation the point is then held in
+                t_us = cm.shift_instant(mode, w["rep"], t_us, out_off,
+                                        nominal)
             strf = None
             if pf is None and spec.get("pfmt"):
                 strf = spec["pfmt"]
@@ -1192,20 +1214,38 @@ class Sim(object):
             return
         exact = all(o["us"] is not None
                     for o in spec["offsets1"] + spec["offsets2"])
+        durs = None
         if not exact:
             self.count("probe.nominal_offset")
+            # month / year offsets: the calendar-rule model decides, unless
+            # a 24:00 spelling is involved (see expect_point_texts)
+            durs = [[cm.parse_designator_duration(o["text"]) if (
+                o["us"] is None) else {"neg": False, "Y": 0, "M": 0,
+                                       "us": o["us"]} for o in offs]
+                    for offs in (spec["offsets1"], spec["offsets2"])]
+            if any(d is None for ds in durs for d in ds) or any(
+                    p["written"].get("H") == 24 for p in pts):
+                durs = None
+            else:
+                exact = True
         loc = self.local_offsets(before)
         if exact:
             wants = set()
             for off_l in ([0] if utc else loc):
                 ts = []
-                for p in pts:
+                for i, p in enumerate(pts):
                     off = p["written"]["off"]
-                    ts.append(cm.written_instant_us(
-                        p["written"], mode, off_l if off is None else off))
-                d = (ts[1] + sum(o["us"] for o in spec["offsets2"])) - (
-                    ts[0] + sum(o["us"] for o in spec["offsets1"]))
-                wants.add(d)
+                    eff = off_l if off is None else off
+                    t_us = cm.written_instant_us(p["written"], mode, eff)
+                    if durs is not None:
+                        t_us = cm.shift_instant(
+                            mode, p["written"]["rep"], t_us,
+                            0 if utc else eff, durs[i])
+                    else:
+                        t_us += sum(o["us"] for o in (
+                            spec["offsets1"], spec["offsets2"])[i])
+                    ts.append(t_us)
+                wants.add(ts[1] - ts[0])
             if spec.get("total"):
                 unit = {"H": 3600, "M": 60, "S": 1}[spec["total"].upper()]
                 try:
@@ -1415,15 +1455,29 @@ class Sim(object):
         ius = spec.get("interval_us")
         if spec["form"] == 1:
             ius = step.get("form1_interval_us")
-        if ius is None or spec.get("pf") or n["time"] is None or (
-                n["zone"] is None):
+        nominal = None
+        if ius is None and spec["form"] == 3 and spec["interval_text"] in (
+                "P1M", "P3M", "P1Y"):
+            # each point is the previous one plus the interval, by the
+            # calendar rules (single-month steps clamp)
+            nominal = cm.parse_designator_duration(spec["interval_text"])
+        if (ius is None and nominal is None) or spec.get("pf") or (
+                n["time"] is None) or n["zone"] is None:
             return
         off = w["off"]
         t0 = cm.written_instant_us(w, mode, off)
         reps = spec["reps"]
-        if ius == 0:
+        if ius == 0 and nominal is None:
             return
-        if spec["form"] == 4:
+        if nominal is not None:
+            count = max(maxn, 0) if reps is None else min(reps, max(maxn, 0))
+            ts = []
+            t = t0
+            for _ in range(count):
+                ts.append(t)
+                t = cm.shift_instant(mode, w["rep"], t, off, [nominal])
+            ius = 0
+        elif spec["form"] == 4:
             if reps is None:
                 ts = [t0 - k * ius for k in range(max(maxn, 0))]
             else:
@@ -1433,7 +1487,8 @@ class Sim(object):
             count = max(maxn, 0) if reps is None else min(reps, max(maxn, 0))
             ts = [t0 + k * ius for k in range(count)]
         out_n = {"date": cm.rep_of(n) + "_ext", "ystyle": n["ystyle"],
-                 "time": "hms_dec" if (w["us"] or ius % 10 ** 6) else "hms",
+                 "time": "hms_dec" if (w["us"] or (ius or 0) % 10 ** 6)
+                 else "hms",
                  "dec": ",", "zone": "Z" if off == 0 else "hhmm"}
         want = []
         for t in ts:
